@@ -162,6 +162,11 @@ class Kernel:
             if base is None:
                 return None
             return base + '.' + node.attr
+        if isinstance(node, ast.Subscript) and isinstance(node.slice, ast.Constant) \
+                and isinstance(node.slice.value, str) and node.slice.value.isidentifier():
+            # entry of a dict under a literal key: d['k'] is the dotted name d.K__k  (C20 reader state)
+            base = self.dotted_of(node.value)
+            return None if base is None else base + '.K__' + node.slice.value
         return None
 
     def lit_num(self, node):
@@ -221,6 +226,21 @@ class Kernel:
             return self.compare(node, env)
         if isinstance(node, ast.Call):
             return self.call(node, env)
+        if isinstance(node, ast.Subscript) and self.dotted_of(node) is not None:
+            return self.load_name(self.dotted_of(node), env)     # dict entry under a literal key
+        if isinstance(node, ast.ListComp) and len(node.generators) == 1 and not node.generators[0].ifs \
+                and isinstance(node.generators[0].target, ast.Name):
+            # [float(v) for v in xs] / [v for v in xs] over a numeric list is that list
+            g0 = node.generators[0]
+            elt = node.elt
+            if isinstance(elt, ast.Call) and isinstance(elt.func, ast.Name) and elt.func.id == 'float' \
+                    and len(elt.args) == 1 and not elt.keywords:
+                elt = elt.args[0]
+            if isinstance(elt, ast.Name) and elt.id == g0.target.id:
+                lst = self.expr(g0.iter, env)
+                if lst.kind == 'list':
+                    return lst
+            raise Unsupported('list comprehension ' + ast.unparse(node)[:60])
         if isinstance(node, ast.Subscript):
             return self.subscript(node, env)
         if isinstance(node, ast.Tuple):
@@ -669,7 +689,7 @@ class Kernel:
                     targets = [n.value.func.value]
                 for t in targets:
                     for e in (t.elts if isinstance(t, ast.Tuple) else [t]):
-                        if isinstance(e, ast.Subscript):
+                        if isinstance(e, ast.Subscript) and self.dotted_of(e) is None:
                             e = e.value
                         d = self.dotted_of(e)
                         if d and d not in out:
@@ -866,6 +886,20 @@ class Kernel:
             return pre + f'let {pat} := (if {c} then (\n{ta}) else (\n{tb})) in\n' + cont(env)
         if isinstance(s, ast.For):
             return self.for_loop(s, env, cont)
+        if isinstance(s, ast.Try) and len(s.handlers) == 1 and not s.orelse and not s.finalbody \
+                and isinstance(s.handlers[0].type, ast.Name) and s.handlers[0].type.id == 'ZeroDivisionError' \
+                and len(s.body) == 1 and isinstance(s.body[0], ast.Assign) \
+                and isinstance(s.body[0].value, ast.BinOp) and isinstance(s.body[0].value.op, ast.Div):
+            # try: t = a / b   except ZeroDivisionError: <handler>
+            # (division of Python floats raises exactly when the divisor compares equal to zero)
+            den = self.to_num(self.expr(s.body[0].value.right, env))
+            env = dict(env)
+            env['__zerodiv__'] = V('bool', app('eqb_', den, 'ofZ 0%Z'))
+            node = ast.If(test=ast.Name(id='__zerodiv__', ctx=ast.Load()), body=list(s.handlers[0].body),
+                          orelse=list(s.body))
+            ast.copy_location(node, s)
+            ast.fix_missing_locations(node)
+            return self.block([node] + rest, env, k)
         if isinstance(s, ast.Try):
             # try: body  except (IndexError|ValueError): raise ...   (handlers must re-raise)
             if s.orelse or s.finalbody or not s.handlers:
@@ -934,6 +968,9 @@ class Kernel:
                 raise Unsupported('tuple unpack mismatch')
             for t, it in zip(target.elts, v.items):
                 env = self.assign(t, it, env)
+            return env
+        if isinstance(target, ast.Subscript) and self.dotted_of(target) is not None:
+            env[self.dotted_of(target)] = self.bind(self.dotted_of(target), v)   # dict entry under a literal key
             return env
         if isinstance(target, ast.Subscript):
             d = self.dotted_of(target.value)
